@@ -126,7 +126,13 @@ def _work_rand(args):
                     build = rng.integers(0, 256, (nm, 3))
                 elif tid % 3 == 1:
                     build = build.astype(np.float32)
-                calc = Chi2Calculator(fixed * g, build, restr if restr else None)
+                # the restraint list as the caller's own index array, refilled afterwards (the calculator keeps what it was given)
+                rarg = restr if restr else None
+                if restr and tid % 2:
+                    rarg = np.array(restr, dtype=np.intp if tid % 4 == 1 else np.int64)
+                calc = Chi2Calculator(fixed * g, build, rarg)
+                if isinstance(rarg, np.ndarray):
+                    rarg[...] = 0
                 mbuf = np.zeros((nm, 3))        # one buffer refilled in place: the value follows the contents, not the object
                 for _ in range(int(rng.integers(2, 5))):
                     mob = rng.integers(0, 256, (nm, 3))
